@@ -259,6 +259,9 @@ func checkC13(c *Check) {
 		}
 		c.add("O-C13.6", f.name+": no other request value is appended to a list", "only flagged attribute keys (and constant specification labels) are appended on the signing side", len(bad) == 0, "", bad...)
 	}
+	// which crit list and which attribute values are reported depends on the header being found by
+	// its exact name: a member "CRIT" must not stand in for "crit" (O-C02.5)
+	c.floor("header-name rules (shared with C02)", 3, shareRules(c, checkC02, []string{"O-C02.5"}, "O-C13.1", "header names: "))
 }
 
 // attrRules: O-C13.3 on the attribute construction loop.
